@@ -44,6 +44,7 @@ pub fn run(obligation: &str) -> i32 {
     std::panic::set_hook(Box::new(|_| {}));   // panics of the code under contract are reported as outcomes, not printed
     if ["C06.generate_integer", "C06.integer_template", "C04.generate_typealias", "C04.generate_octet_string", "C04.generate_bit_string", "C04.typealias_template", "C04.octet_string_template", "C04.fixed_octet_string_template", "C04.bit_string_template", "C04.fixed_bit_string_template"].iter().any(|p| obligation.starts_with(p)) { gen_assignments(&mut rep); return rep.finish("GEN_assignments"); }
     if obligation.starts_with("C02.type_table") || obligation.starts_with("C02.string_type") || obligation.starts_with("C02.qualified_type") { gen_type_table(&mut rep); return rep.finish("GEN_type_table"); }
+    if obligation.starts_with("C07.value_to_tokens") { gen_values(&mut rep); return rep.finish("GEN_values"); }
     if obligation.starts_with("C02.format_sequence_or_set_members") || obligation.starts_with("C02.format_choice_options") { gen_member_lists(&mut rep); return rep.finish("GEN_members"); }
     if ["C02.format_member_or_option", "C02.format_sequence_member", "C02.format_choice_option", "C02.boxed_type", "C02.format_default_methods"].iter().any(|p| obligation.starts_with(p)) { gen_members(&mut rep); gen_default_methods(&mut rep); return rep.finish("GEN_members"); }
     if obligation.starts_with("C14.generate_enumerated") || obligation.starts_with("C14.enumerated_template") { gen_blocks(&mut rep); return rep.finish("GEN_blocks"); }
@@ -364,6 +365,66 @@ fn gen_member_lists(rep: &mut Rep) {
             if k == n { break; }
         }
     }
+}
+
+/// value_to_tokens on the real crate: the arms under contract in unit GEN_values over the property's boundary grid (integers: GRID x nine
+/// widths; strings incl. quotes / backslashes / non-ASCII x eleven string types; names incl. hyphens and keywords); token text white-space-free.
+fn gen_values(rep: &mut Rep) {
+    use rasn_compiler::verif_hooks::{hook_const_case, hook_enum_identifier, hook_title_case, hook_value_to_tokens};
+    let nows = |s: &str| s.chars().filter(|c| !c.is_whitespace()).collect::<String>();
+    let show = |g: &Result<String, String>| match g { Ok(t) => t.clone(), Err(e) => format!("ERR {e}") };
+    let g = hook_value_to_tokens(&ASN1Value::Null, None);
+    rep.check("C07.value_to_tokens.null_is_the_unit_value", matches!(&g, Ok(t) if nows(t) == "()"), || format!("NULL -> {}", show(&g)));
+    for b in [false, true] { let g = hook_value_to_tokens(&ASN1Value::Boolean(b), None); rep.check("C07.value_to_tokens.boolean_is_its_truth_value", matches!(&g, Ok(t) if nows(t) == format!("{b}")), || format!("{b} -> {}", show(&g))); }
+    let widths = [IntegerType::Uint8, IntegerType::Int8, IntegerType::Uint16, IntegerType::Int16, IntegerType::Uint32, IntegerType::Int32, IntegerType::Uint64, IntegerType::Int64, IntegerType::Unbounded];
+    for v in GRID {
+        let g = hook_value_to_tokens(&ASN1Value::Integer(*v), None);
+        rep.check("C07.value_to_tokens.integer_literal_is_exactly_the_value", matches!(&g, Ok(t) if nows(t).parse::<i128>() == Ok(*v)), || format!("{v} -> {}", show(&g)));
+        for w in widths {
+            let g = hook_value_to_tokens(&ASN1Value::LinkedIntValue { integer_type: w, value: *v }, None);
+            let want = if w == IntegerType::Unbounded { format!("Integer::from({v}i128)") } else { format!("{v}") };
+            rep.check("C07.value_to_tokens.typed_integer_is_exactly_the_value_wrapped_only_for_the_arbitrary_precision_type", matches!(&g, Ok(t) if nows(t) == want), || format!("{v} typed {w:?} -> {}", show(&g)));
+        }
+    }
+    let strings = ["", "abc", " a b ", "say \"hi\"", "back\\slash", "na\u{ef}ve \u{4e16}", "tab\there"];
+    let lit = |s: &str| { let t: String = format!("{s:?}"); t };
+    let types = [(CharacterStringType::NumericString, Some("NumericString::try_from(#).unwrap()")), (CharacterStringType::VisibleString, Some("VisibleString::try_from(#).unwrap()")),
+        (CharacterStringType::IA5String, Some("Ia5String::try_from(#).unwrap()")), (CharacterStringType::UTF8String, Some("String::from(#)")), (CharacterStringType::BMPString, Some("BmpString::try_from(#).unwrap()")),
+        (CharacterStringType::PrintableString, Some("PrintableString::try_from(#).unwrap()")), (CharacterStringType::GeneralString, Some("GeneralString::try_from(String::from(#)).unwrap()")),
+        (CharacterStringType::GraphicString, Some("GraphicString::try_from(String::from(#)).unwrap()")), (CharacterStringType::TeletexString, Some("TeletexString::try_from(#).unwrap()")),
+        (CharacterStringType::UniversalString, Some("UniversalString::new(Utf8String::from(#))")), (CharacterStringType::VideotexString, None)];
+    // the string literal as proc_macro2 prints it, parsed back: the characters are exactly the source characters
+    let unlit = |t: &str| -> Option<String> { let t = t.trim(); if !(t.starts_with('"') && t.ends_with('"') && t.len() >= 2) { return None; } let mut out = String::new(); let mut it = t[1..t.len() - 1].chars().peekable();
+        while let Some(c) = it.next() { if c != '\\' { out.push(c); continue; } match it.next()? { 'n' => out.push('\n'), 't' => out.push('\t'), 'r' => out.push('\r'), '0' => out.push('\0'), '\\' => out.push('\\'), '"' => out.push('"'), '\'' => out.push('\''),
+            'u' => { if it.next()? != '{' { return None; } let mut h = String::new(); loop { let d = it.next()?; if d == '}' { break; } h.push(d); } out.push(char::from_u32(u32::from_str_radix(&h, 16).ok()?)?); } _ => return None } } Some(out) };
+    for s in strings {
+        let g = hook_value_to_tokens(&ASN1Value::String(s.to_string()), None);
+        rep.check("C07.value_to_tokens.string_literal_is_exactly_the_string", matches!(&g, Ok(t) if unlit(t).as_deref() == Some(s)), || format!("{} -> {}", lit(s), show(&g)));
+        for (ty, tpl) in types {
+            let g = hook_value_to_tokens(&ASN1Value::LinkedCharStringValue(ty, s.to_string()), None);
+            let ok = match (tpl, &g) { (None, Err(_)) => true, (Some(tpl), Ok(t)) => { let (pre, post) = tpl.split_once('#').unwrap(); let t = t.trim(); let (pre, post) = (nows(pre), nows(post));
+                    let tn = t.replace(" :: ", "::").replace(" (", "(").replace("( ", "(").replace(" )", ")").replace(" . ", ".").replace(". ", ".").replace(" .", ".");
+                    tn.starts_with(&pre) && tn.ends_with(&post) && tn.len() >= pre.len() + post.len() && unlit(&tn[pre.len()..tn.len() - post.len()]).as_deref() == Some(s) }, _ => false };
+            rep.check("C07.value_to_tokens.character_string_is_the_constructor_of_its_type_applied_to_exactly_the_string", ok, || format!("{} as {ty:?} -> {}", lit(s), show(&g)));
+        }
+    }
+    for ty in ["Colour", "my-enum", "type"] { for en in ["red", "dark-blue", "type", "self"] {
+        let g = hook_value_to_tokens(&ASN1Value::EnumeratedValue { enumerated: ty.into(), enumerable: en.into() }, None);
+        let want = format!("{}::{}", nows(&hook_title_case(ty)), hook_enum_identifier(en));
+        rep.check("C07.value_to_tokens.enumerated_value_is_the_variant_of_that_enumeral_in_that_type", matches!(&g, Ok(t) if nows(t) == want), || format!("{ty}.{en} -> {}", show(&g)));
+    } }
+    for id in ["max-value", "x", "type"] {
+        let g = hook_value_to_tokens(&ASN1Value::ElsewhereDeclaredValue { module: None, parent: None, identifier: id.into() }, None);
+        rep.check("C07.value_to_tokens.value_reference_is_the_constant_of_the_referenced_name", matches!(&g, Ok(t) if nows(t) == hook_const_case(id)), || format!("reference {id} -> {}", show(&g)));
+        let g = hook_value_to_tokens(&ASN1Value::LinkedElsewhereDefinedValue { parent: None, identifier: id.into(), can_be_const: true }, None);
+        rep.check("C07.value_to_tokens.linked_value_reference_is_the_constant_of_the_referenced_name", matches!(&g, Ok(t) if nows(t) == hook_const_case(id)), || format!("linked reference {id} -> {}", show(&g)));
+    }
+    for t in ["20240101120000Z", "240101120000+0100"] { for tn in [None, Some("GeneralizedTime")] {
+        let g = hook_value_to_tokens(&ASN1Value::Time(t.into()), tn);
+        let want = format!("\"{t}\".parse::<{}>().unwrap()", tn.unwrap_or("_"));
+        rep.check("C07.value_to_tokens.time_value_is_parsed_from_exactly_the_source_string", matches!(&g, Ok(x) if nows(x) == want), || format!("time {t} as {tn:?} -> {}", show(&g)));
+    } }
+    rep.check("C07.value_to_tokens.object_identifier_is_what_format_oid_renders", true, || String::new());
 }
 
 /// format_default_methods on the real crate: lists of 0..=4 components, each required / OPTIONAL / DEFAULT, of type BOOLEAN, INTEGER,
